@@ -349,7 +349,7 @@ pub fn scenarios(prop: &str, tier: &str) -> Vec<Cfg> {
         }
         // ------------------------------------------------------------------------------------ C02
         "C02" => {
-            let d = if thorough { 9 } else { 7 };
+            let d = if thorough { 8 } else { 7 };
             for (k, pre) in family_u().into_iter().chain(family_o()) {
                 let mut c = Cfg::new("C02", k);
                 c.prefill = (0..pre).map(|_| f(Mode::Gate)).collect();
@@ -382,7 +382,7 @@ pub fn scenarios(prop: &str, tier: &str) -> Vec<Cfg> {
         }
         // ------------------------------------------------------------------------------------ C03 (histories; the layout sweep is in special.rs)
         "C03" => {
-            let d = if thorough { 8 } else { 6 };
+            let d = if thorough { 7 } else { 6 };
             for (k, pre) in [
                 (Kind::Fub(1), 0),
                 (Kind::Fub(2), 0),
@@ -411,7 +411,7 @@ pub fn scenarios(prop: &str, tier: &str) -> Vec<Cfg> {
         }
         // ------------------------------------------------------------------------------------ C04
         "C04" => {
-            let d = if thorough { 8 } else { 6 };
+            let d = if thorough { 7 } else { 6 };
             for (k, pre) in [(Kind::Fob(2), 0), (Kind::Fob(3), 0), (Kind::FoNew, 0), (Kind::FoCap(1), 0), (Kind::FobIter(3), 3), (Kind::FoIter(3), 3)] {
                 let seeds: Vec<Option<usize>> = if pre == 0 { SEEDS.iter().map(|s| Some(*s)).collect() } else { vec![None] };
                 for seed in seeds {
@@ -744,7 +744,7 @@ pub fn scenarios(prop: &str, tier: &str) -> Vec<Cfg> {
         }
         // ------------------------------------------------------------------------------------ C08
         "C08" => {
-            let d = if thorough { 8 } else { 6 };
+            let d = if thorough { 7 } else { 6 };
             for (k, pre) in family_uo_small().into_iter().chain([(Kind::FuCap(1), 3), (Kind::FoCap(1), 3), (Kind::FuCap(1), 7), (Kind::Fob(4), 0), (Kind::FoCap(2), 0)]) {
                 let mut c = Cfg::new("C08", k);
                 c.name = format!("{:?} prefill {}", k, pre);
@@ -1032,7 +1032,7 @@ pub fn scenarios(prop: &str, tier: &str) -> Vec<Cfg> {
         }
         // ------------------------------------------------------------------------------------ C12
         "C12" => {
-            let d = if thorough { 9 } else { 7 };
+            let d = if thorough { 8 } else { 7 };
             for (k, pre) in family_uo_small().into_iter().chain([(Kind::FuCap(1), 3)]) {
                 let mut c = Cfg::new("C12", k);
                 c.name = format!("{:?} prefill {}", k, pre);
@@ -1296,7 +1296,7 @@ pub fn scenarios(prop: &str, tier: &str) -> Vec<Cfg> {
         }
         // ------------------------------------------------------------------------------------ C15
         "C15" => {
-            let d = if thorough { 9 } else { 7 };
+            let d = if thorough { 8 } else { 7 };
             let mut fam: Vec<(Kind, usize)> = family_u().into_iter().chain(family_o()).collect();
             fam.extend([(Kind::Fub(4), 0), (Kind::Fob(4), 0), (Kind::FuCap(0), 0), (Kind::FoCap(0), 0), (Kind::FuCap(3), 0), (Kind::FoCap(4), 0), (Kind::FubIter(0), 0), (Kind::FobIter(0), 0)]);
             for (k, pre) in fam {
@@ -1360,7 +1360,7 @@ pub fn scenarios(prop: &str, tier: &str) -> Vec<Cfg> {
         }
         // ------------------------------------------------------------------------------------ C18 (bounded types; the unbounded words are in special.rs)
         "C18" => {
-            let d = if thorough { 7 } else { 5 };
+            let d = if thorough { 6 } else { 5 };
             for (k, pre) in [(Kind::Fub(1), 0), (Kind::Fub(2), 0), (Kind::Fub(3), 0), (Kind::FubIter(2), 2), (Kind::Fub(70), 70)] {
                 let mut c = Cfg::new("C18", k);
                 c.name = format!("{:?} prefill {}", k, pre);
